@@ -110,7 +110,8 @@ CHECKS = {
     "C15": dict(
         text="map_coordinates on integer arrays of rank 1-4 at dyadic coordinates (nodes, cells, up to two cells outside; batched "
              "and unbatched) must equal Interp!MapCoordinates exactly; LinspaceGrid/LogspaceGrid.get_coordinate must satisfy the "
-             "grid laws (node i -> i, strict monotonicity, = Interp!Coord, round trip) as judged by TLC.",
+             "grid laws (node i -> i, strict monotonicity, = Interp!Coord, round trip) as judged by TLC, also on exact linear grids "
+             "of 129-1025 nodes at values a thousandth of a step to either side of high-index nodes.",
         note="Seeded cases; log grids and non-power-of-two linear grids within a few-ulp tolerance; no statement about exp/log accuracy.",
         technique="TLC trace validation of recorded kernel/coordinate calls against Interp.tla", ref="§6 C15"),
     "C16": dict(
